@@ -92,6 +92,8 @@ def optimize_prec_assignment(model: MPS,
                     return [sorted_array[i] for i in inverse_indexes]
 
                 best_cost_w_theta_alpha_array = [copy.deepcopy(w_theta_alpha_array)[i] for i in sorted_indexes]
+                # half of the fraction corresponding to one channel, to compare floats robustly
+                half_step = 0.5 / n_alive_channels
 
                 # Case 1: assign a channel at a time to a higher precision. Save the configuration if the cost decreases
                 w_theta_alpha_array_tmp = [copy.deepcopy(w_theta_alpha_array)[i] for i in sorted_indexes]
@@ -101,7 +103,7 @@ def optimize_prec_assignment(model: MPS,
                         continue
                     for j in range(i + 1, len(sorted_precisions)):
                         w_theta_alpha_array_tmp = [copy.deepcopy(w_theta_alpha_array)[i] for i in sorted_indexes]
-                        while w_theta_alpha_array_tmp[i] > 0:
+                        while w_theta_alpha_array_tmp[i] > half_step:
                             w_theta_alpha_array_tmp[i] -= (1. / n_alive_channels)
                             w_theta_alpha_array_tmp[j] += (1. / n_alive_channels)
                             cost_tmp = _compute_cost(model, layer, unsort(w_theta_alpha_array_tmp), cost_fn_map, lname, node)
@@ -126,7 +128,7 @@ def optimize_prec_assignment(model: MPS,
                     if sorted_precisions[i] == 0:
                         continue
                     for j in range(i + 1, len(sorted_precisions)):
-                        while w_theta_alpha_array_tmp[i] > 0:
+                        while w_theta_alpha_array_tmp[i] > half_step:
                             w_theta_alpha_array_tmp[i] -= (1. / n_alive_channels)
                             w_theta_alpha_array_tmp[j] += (1. / n_alive_channels)
                             cost_tmp = _compute_cost(model, layer, unsort(w_theta_alpha_array_tmp), cost_fn_map, lname, node)
@@ -146,7 +148,7 @@ def optimize_prec_assignment(model: MPS,
 
                 # Sort the best configuration according to the original order of the precisions
                 best_theta_alpha_array = torch.tensor(unsort(best_cost_w_theta_alpha_array))
-                best_theta_alpha_array = torch.mul(best_theta_alpha_array, n_alive_channels)
+                best_theta_alpha_array = torch.round(torch.mul(best_theta_alpha_array, n_alive_channels))
 
                 # Update the layer with the best configuration.
                 # Modify only the alpha parameter of each layer, and not the theta_alpha, to avoid
